@@ -81,6 +81,24 @@ def build(mode, tag, mixin=DataClassORJSONMixin):
         mk("Outer", [("i", names["Inner"]), ("l", typing.List[names["Inner"]], F(default_factory=list)),
                      ("o", typing.Optional[int], F(default=None))])
         mk("Sub", [("z", int, F(default=0))], bases=(names["Outer"],))
+    # nested classes WITHOUT dialect support (a plain dataclass and a mixin whose Config lacks the option) inside a class with it
+    def mk_nosup():
+        reg(dataclasses.make_dataclass("Plain" + tag, [("a", int), ("d", datetime.date, F(default=datetime.date(2000, 1, 1)))],
+                                       namespace={"__module__": __name__, "__qualname__": "Plain" + tag}), "Plain")
+        cfg2 = {k: v for k, v in cfg.items() if k != "code_generation_options"}
+        reg(dataclasses.make_dataclass("NoSup" + tag, [("a", int), ("b", bytes, F(default=b"\x00x"))], bases=(mixin,),
+                                       namespace={"Config": type("Config", (BaseConfig,), cfg2), "__module__": __name__,
+                                                  "__qualname__": "NoSup" + tag}), "NoSup")
+
+    if mode == "postponed":
+        for nm in ("Plain", "NoSup"):
+            if hasattr(MOD, nm + tag):
+                delattr(MOD, nm + tag)
+        mk("Mixed", [("p", "Plain" + tag), ("n", "typing.Optional[NoSup%s]" % tag, F(default=None))])
+        mk_nosup()
+    else:
+        mk_nosup()
+        mk("Mixed", [("p", names["Plain"]), ("n", typing.Optional[names["NoSup"]], F(default=None))])
     mk("Node", [("v", int), ("nxt", "typing.Optional[Node%s]" % tag, F(default=None))])
     g = dataclasses.make_dataclass("Gen" + tag, [("g", T), ("gs", typing.List[T], F(default_factory=list))],
                                    bases=(typing.Generic[T], mixin), namespace=ns("Gen"))
@@ -90,11 +108,11 @@ def build(mode, tag, mixin=DataClassORJSONMixin):
 
 
 COUNTER = [0]
-TARGETS = ["Outer", "Inner", "Sub", "Node", "Holder"]
+TARGETS = ["Outer", "Inner", "Sub", "Node", "Holder", "Mixed"]
 METHODS = ["to_dict", "from_dict", "to_fmt", "from_fmt"]
 DIALECTS = [None, D1]
 OPS = [(t, m, dj) for t in TARGETS for m in METHODS for dj in (0, 1)]
-OPS_QUICK = [(t, m, dj) for t in ("Outer", "Holder") for m in METHODS for dj in (0, 1)]
+OPS_QUICK = [(t, m, dj) for t in ("Outer", "Holder", "Mixed") for m in METHODS for dj in (0, 1)]
 
 
 def concrete(names, target, a=1, o=None, date=None, n=1):
@@ -106,6 +124,8 @@ def concrete(names, target, a=1, o=None, date=None, n=1):
         return names["Outer"](i=I(a=a, d=d), l=[I(a=a + 1)] * n, o=o)
     if target == "Sub":
         return names["Sub"](i=I(a=a, d=d), l=[I(a=a + 1)] * n, o=o, z=a)
+    if target == "Mixed":
+        return names["Mixed"](p=names["Plain"](a=a, d=d), n=names["NoSup"](a=a + 1) if n else None)
     if target == "Node":
         return names["Node"](v=a, nxt=names["Node"](v=a + 1) if n else None)
     return names["Holder"](gi=names["Gen"](g=a, gs=[a] * n), gd=names["Gen"](g=d, gs=[d] * n))
